@@ -30,6 +30,9 @@ PROPS = {
     "C07-h2-no-idle-report-after-goaway": ["C07"], "C08-reset-stream-blocked-instead-of-woken": ["C08"], "C10-shared-permessage-deflate-object": ["C10"],
     "C13-tls-without-alpn-defaults-to-first-offer": ["C13", "C16"], "C15-mark-request-also-sets-terminated": ["C15"], "C16-asyncio-restart-keeps-pending-timer": ["C16", "C07"],
     "C20-proxyfix-lazy-copy-misses-scheme": ["C20"],
+    "C01-ipv6-address-tuple-passed-raw": ["C01"], "C02-response-headers-cached-and-extended-in-place": ["C02", "C19"], "C05-h11-close-deferred-while-client-uploads": ["C05", "C06"],
+    "C09-reset-frees-buffer-under-send-task": ["C09", "C04"], "C11-denial-body-only-with-head": ["C11"], "C12-ws-text-check-weakened-to-none": ["C12"],
+    "C14-lifespan-send-any-outcome-sets-event": ["C14"], "C17-body-limit-checked-per-chunk": ["C17"], "C18-h11-request-counted-at-close": ["C18"], "C19-quic-addresses-shared-list": ["C19"],
 }
 claimed = {c["property_id"] for c in json.load(open(os.path.join(HERE, "MANIFEST.json")))["checks"]}
 sel = sys.argv[1:]
